@@ -8,7 +8,8 @@
     l1 <i> <thr> <tgt> <fnex> <modaux> FILE|raw <hex>
                                      → decoder view: "#i e …" per entry, "#i c …" per expanded command,
                                        "#i xerr" when the expansion panics, "#i done|err"
-    l2 <i> <thr> <tgt> <fnex> <modaux> <restore> <bulk> <par> <tdb> <dbmap> <now> <nPre> (<db> <hexkey>)* FILE|raw <hex>
+    l2 <i> <thr> <tgt> <fnex> <modaux> <restore> <bulk> <par> <tdb> <dbmap> <now>
+       <dbBlack|-> <prefixBlack hex,..|-> <prefixWhite|-> <slotBlack a:b,..|-> <slotWhite|-> <nPre> (<db> <hexkey>)* FILE|raw <hex>
                                      → per-worker request log "#i w<k> <cmd> <args…>", "#i result ok|err"
 
   FILE is the dataset description grammar documented in
@@ -17,6 +18,7 @@
 -/
 import GunYu.Model.Rdb.Enc
 import GunYu.Model.Rdb.Replay
+import GunYu.Model.Slot
 
 namespace GunYu.Drive.C03
 open GunYu GunYu.Rdb
@@ -489,6 +491,34 @@ def keyLines (tag : String) (f : FileE) : List String :=
     | _ :: r => go db r
   go 0 f.items
 
+/-! ### output filter (l2): DB black list, prefix black/white lists, slot black/white ranges -/
+
+def pIntList (s : String) : Option (List Int) :=
+  if s == "-" then some [] else (s.splitOn ",").mapM strInt
+
+def pHexList (s : String) : Option (List Bytes) :=
+  if s == "-" then some [] else (s.splitOn ",").mapM Hex.decode
+
+def pRanges (s : String) : Option (List (Nat × Nat)) :=
+  if s == "-" then some [] else
+  (s.splitOn ",").mapM (fun p => match p.splitOn ":" with
+    | [a, b] => match a.toNat?, b.toNat? with
+      | some a, some b => some (a, b)
+      | _, _ => none
+    | _ => none)
+
+def isPrefixOf (p k : Bytes) : Bool := p.length ≤ k.length && k.take p.length == p
+
+/-- `FilterKey(key) || FilterSlot(key)` of an output filter built by
+    `NewRedisOutput`: the reserved prefixes are always black-listed; a white
+    list, when configured, must match -/
+def keyFilter (pblack pwhite : List Bytes) (sblack swhite : List (Nat × Nat)) (k : Bytes) : Bool :=
+  let black := [b!"redis-gunyu-checkpoint", b!"/redis-gunyu"] ++ pblack
+  let slot := Slot.keyToSlot k
+  let inR (rs : List (Nat × Nat)) := rs.any (fun r => r.1 ≤ slot && slot ≤ r.2)
+  black.any (isPrefixOf · k) || (!pwhite.isEmpty && !pwhite.any (isPrefixOf · k)) ||
+    inR sblack || (!swhite.isEmpty && !inR swhite)
+
 def handle : List String → Option (List String)
   | ["crc64", h] =>
     match Hex.decode h with
@@ -509,8 +539,14 @@ def handle : List String → Option (List String)
     | some thr, some tgt, some fnex, some (bs, []) =>
       some (l1Lines tag { thr, failModAux := modaux == "1" } { tgtMajor := tgt, fnExists := fnex } bs)
     | _, _, _, _ => some [tag ++ "bad-desc"]
-  | "l2" :: i :: thr :: tgt :: fnex :: modaux :: restore :: bulk :: par :: tdb :: dbmap :: now :: npre :: rest =>
+  | "l2" :: i :: thr :: tgt :: fnex :: modaux :: restore :: bulk :: par :: tdb :: dbmap :: now ::
+      dbb :: pb :: pw :: sb :: sw :: npre :: rest =>
     let tag := s!"#{i} "
+    let flt : Option (List Int × List Bytes × List Bytes × List (Nat × Nat) × List (Nat × Nat)) := do
+      pure (← pIntList dbb, ← pHexList pb, ← pHexList pw, ← pRanges sb, ← pRanges sw)
+    match flt with
+    | none => some [tag ++ "bad-desc"]
+    | some (dbb, pb, pw, sb, sw) =>
     match thr.toNat?, tgt.toNat?, fnex.toNat?, bulk.toNat?, par.toNat?, strInt tdb, pDbMap dbmap, now.toNat?, npre.toNat? with
     | some thr, some tgt, some fnex, some bulk, some par, some tdb, some dbmap, some now, some npre =>
       match pPre npre rest with
@@ -518,7 +554,8 @@ def handle : List String → Option (List String)
         match pBytes rest1 with
         | some (bs, []) =>
           let cfg : RCfg := { x := { tgtMajor := tgt, fnExists := fnex }, enableRestore := restore == "1",
-                              maxBulk := bulk, parallel := par, targetDb := tdb, dbMap := dbmap, now := now }
+                              maxBulk := bulk, parallel := par, targetDb := tdb, dbMap := dbmap, now := now,
+                              filterDb := fun d => dbb.contains d, filterKey := keyFilter pb pw sb sw }
           let (logs, ok) := sendRdb { thr, failModAux := modaux == "1" } cfg pre bs
           if ok then
             -- worker logs in canonical order: sorted by their rendered content
